@@ -44,6 +44,7 @@ func (c05) Gates(tier string, m map[string]int64) []rt.Gate {
 		rt.GateMin("aggregate argument through an alias", m, "alias_in_aggregate", 50),
 		rt.GateMin("columns checked against the reference", m, "ref_columns", 5000),
 		rt.GateMin("statements compared in all eight configurations", m, "compared8", 2000),
+		rt.GateMin("statements with a duplicated field name", m, "duplicate_alias", 50),
 	}
 }
 
@@ -66,6 +67,28 @@ func (k c05) Run(c *rt.Ctx) {
 		stmt = g.Select(r.Range(1, 3))
 		if stmt.UsesAlias() || len(stmt.GroupBy) > 0 {
 			break
+		}
+	}
+	if !stmt.Star && !stmt.IsAggregate() && len(stmt.Fields) >= 2 && r.Chance(1, 8) {
+		// a second field announced under a name that is already taken: uses of
+		// the name keep meaning the FIRST field; the column must still show its
+		// own expression
+		var named []int
+		for i, f := range stmt.Fields {
+			if f.Alias != "" {
+				named = append(named, i)
+			}
+		}
+		if len(named) >= 1 {
+			src := named[r.Intn(len(named))]
+			var e *gen.Node
+			if r.Bool() {
+				e = gen.Value()
+			} else {
+				e = gen.Call("strlen", gen.Key())
+			}
+			stmt.Fields = append(stmt.Fields, gen.Field{E: e, Alias: stmt.Fields[src].Alias})
+			c.Rec.Inc("duplicate_alias")
 		}
 	}
 	if !stmt.Star && !stmt.IsAggregate() {
